@@ -24,6 +24,13 @@ chk('C05', 'model_checking',
     'for the codecs. libz itself is outside.',
     'bounded symbolic execution of LLVM IR (own executor, z3) + native ASan/UBSan replay', 'DESIGN.md §3 C05')
 
+chk('C19', 'other',
+    'SMT validity over the whole stated domain (sample count in [0, 2^62], every double rate in [0, 2^31]): the real functions are executed symbolically '
+    '(loop-free, 3 paths) and each obligation of harness/h_wave.cpp is shown unsatisfiable by z3 - natively in BV/FP where that finishes (floor lemma, exactness), '
+    'otherwise in an integer encoding that keeps mod 2^64 explicitly, re-checked by cvc5. No unrolling or size bound is involved; it is a solver verdict, not a proof-assistant proof.',
+    'Trusted: clang lowering, lsx executor, lsx/bv2int.py, z3, cvc5. In the integer encoding FP operations are uninterpreted functions of their operands (sound for unsat). '
+    'Rates outside [0, 2^31], NaN and infinities are outside the statement (the cast is UB there).',
+    'symbolic execution of LLVM IR + SMT (z3 BV/FP and integer encoding with explicit mod 2^64; cvc5 cross-check)', 'DESIGN.md §2.4, §3 C19')
 for pid, why in (
     ('C10', 'persistence across close/reopen is a fact about SQLite\'s pager and two attached files; the glue has no input, schedule or fault to quantify over and SQLite (250 kLoC, not in the tree) cannot be encoded for a bounded symbolic engine (DESIGN.md §4)'),
     ('C12', 'a finite comparison of DDL emitted by create() with reference dumps modulo SQLite\'s own parser; no symbolic variable, needs the real SQLite to normalise both sides (DESIGN.md §4)'),
